@@ -410,9 +410,11 @@ def _scene(rng, targets, nmax=6):
 
 
 def _thr(rng, mode, n, allow_bad=False):
+    # integer-typed numbers are legal thresholds (set_thresholds accepts any Real): 1 instead of 1.0 in a fifth of the lists
+    as_int = (lambda v: int(v) if float(v).is_integer() else v) if rng.random() < 0.2 else (lambda v: v)
     if mode in ("center", "plane"):
-        return [rng.choice([0.5, 1.0, 1.25, 2.0, 3.0]) for _ in range(n)]
-    t = [rng.choice([0.0, 0.125, 0.3, 0.5, 0.75, 1.0]) for _ in range(n)]
+        return [as_int(rng.choice([0.5, 1.0, 1.25, 2.0, 3.0])) for _ in range(n)]
+    t = [as_int(rng.choice([0.0, 0.125, 0.3, 0.5, 0.75, 1.0])) for _ in range(n)]
     if allow_bad and rng.random() < 0.08:
         t[rng.randrange(n)] = rng.choice([1.5, -0.125])
     return t
